@@ -861,6 +861,27 @@ def c05f(ctx):
                 elif sel is None and isinstance(v, ast.Subscript) and unparse(v.value).endswith('.coord') \
                         and isinstance(const_value(v.slice), int):
                     comp[name] = 'coord[%d]' % const_value(v.slice)
+        # the keys of a mapping that is filled under `<tile>.coord[k]` are coordinate components as well: `for level in by_level:`
+        keyed = {}
+        for x in fn.walk():
+            if isinstance(x, ast.Call) and isinstance(x.func, ast.Attribute) and x.func.attr == 'setdefault' and len(x.args) == 2:
+                k_ = x.args[0]
+            elif isinstance(x, ast.Subscript) and isinstance(x.ctx, ast.Store):
+                k_ = x.slice
+                x = ast.Call(func=ast.Attribute(value=x.value, attr='setdefault', ctx=ast.Load()), args=[], keywords=[])
+            else:
+                continue
+            kt = fn.ctext(k_) if getattr(k_, '_parent', None) is not None or hasattr(k_, 'lineno') else ''
+            m_ = re.match(r'^(\w+)\.coord\[(\d)\]$', kt)
+            if m_:
+                keyed[unparse(x.func.value)] = 'coord[%s]' % m_.group(2)
+        for lp in [l for l in fn.walk() if isinstance(l, ast.For)]:
+            it = lp.iter
+            d = unparse(it.func.value) if isinstance(it, ast.Call) and isinstance(it.func, ast.Attribute) and it.func.attr in ('keys', 'items') else unparse(it)
+            if d in keyed:
+                tgt = lp.target.elts[0] if isinstance(lp.target, ast.Tuple) and isinstance(it, ast.Call) and it.func.attr == 'items' else lp.target
+                if isinstance(tgt, ast.Name):
+                    comp[tgt.id] = keyed[d]
         if not comp:
             continue
         n_funcs += 1
